@@ -18,7 +18,16 @@ type interner struct {
 	r []string
 }
 
-func newInterner() *interner { return &interner{m: map[string]int{"": 0}, r: []string{""}} }
+func newInterner() *interner {
+	t := &interner{m: map[string]int{"": 0}, r: []string{""}}
+	// fixed universe first, so every process and driver numbers the known strings alike
+	for _, l := range [][]string{nodeAlphabet, acctAlphabet, kindAlphabet, {"unknown", "enode://a@1.2.3.4:30303", "enode://b@[::1]:1"}} {
+		for _, s := range l {
+			t.id(s)
+		}
+	}
+	return t
+}
 func (t *interner) id(s string) int {
 	if v, ok := t.m[s]; ok {
 		return v
@@ -92,8 +101,9 @@ func resOkErr(err error) (string, string) {
 // applySOp executes one operation on a real driver. It returns the Gallina rendering of the
 // model operation, of the observed result, and a time-free projection used to compare drivers.
 func applySOp(st *openStore, t *interner, o *SOp) (opCoq, obsCoq, proj string) {
-	now := time.Now()
-	o.Now = now.UnixNano()
+	if o.Now == 0 {
+		o.Now = time.Now().UnixNano()
+	}
 	defer func() { o.Obs = proj }()
 	switch o.Op {
 	case "CheckNonce":
